@@ -4,6 +4,7 @@ set -e
 cd "$(dirname "$0")/harness"
 export CARGO_NET_OFFLINE=true
 cargo build --release --offline --target-dir target/cfg_a --features cfg_a
+cargo build --release --offline --target-dir target/cfg_a -p tvm
 cargo build --release --offline --target-dir target/cfg_b --no-default-features --features cfg_b
 mkdir -p ../work ../replays ../evidence
 echo setup ok
